@@ -58,23 +58,25 @@ PROPS["C01"] = dict(
 PROPS["C14"] = dict(
     modules=["Morlock.Props.C14", "Morlock.Props.GenTie"],
     streams=["fencanon", "game", "engine"],
-    level_text="Lean: every finite component of the FEN codec is proved to round-trip (16 rights sets, sides, 64 squares, 12 piece letters); the placement "
-               "round-trip and the reported-FEN claim are decided by differential streams: decode/encode of canonical FENs impl vs model vs an independent strict "
-               "FEN reader/writer, and Engine/Board-reported FEN along game histories vs the standard clocks recomputed from the whole history (Spec.Game).",
-    level_note="Trusted: Lean kernel; Model.Fen transcription tied by the fen streams; Spec.Fen / Spec.Game as reference. DecodeEncodeStatement is not yet a theorem.",
-    technique="Lean 4 component round-trip lemmas (decide) + differential impl/model/spec over canonical FENs and game histories",
+    level_text="Lean theorems (full): decode (encode p c np fm) = (p, c, np, fm) for EVERY position whose views agree (Rep), all rights sets, any target square, clocks up to int64 "
+               "(decode_encode; the int64 bound is proved necessary); encode (decode s) = s for every canonical FEN string (encode_decode, with Canonical the standard grammar), "
+               "every encode output is canonical (encode_canonical). The reported-FEN part (standard clocks over game histories incl. take-backs) is decided by the game/engine "
+               "streams against clocks recomputed from the whole history (Spec.Game); C05/C08 theorems carry the clock bookkeeping.",
+    level_note="Trusted: Lean kernel; Model.Fen transcription tied by the fen streams (canonical FENs impl vs model vs an independent strict FEN reader/writer); Spec.Game as reference for reported FEN.",
+    technique="Lean 4 proof (run-length rank codec, 8x8 grid, Rep machinery, Nat.toDigits round trip) + differential impl/model/spec over canonical FENs and game histories",
     rule="canonical FENs of generated positions with all 16 rights sets, e.p. on both ranks, both sides, clocks 0..10^6; game histories with castling, e.p., promotions, "
          "take-backs and forks; non-trivial = distinct (position key, clocks) / history containing a special move, draw, fork or pop",
-    partial=["placement round-trip for all positions is exploration (needs Rep machinery)"],
+    partial=["'the FEN an engine reports is the standard FEN of its game' over all histories is decided by differential streams, not a theorem"],
     modelled=["board/fen/fen.go: Decode, Encode and helpers -> Model.Fen", "board/board.go clocks -> Model.Board"],
 )
 
 PROPS["C19"] = dict(
     modules=["Morlock.Props.C19"],
     streams=["fenstrings", "engine"],
-    level_text="Lean: the decoders are total functions in the model (no partial definitions); the theorem placements_in_range shows every square the placement loop "
-               "hands to NewPosition is < 64 and strictly decreasing (no index out of range, no duplicate), for ALL strings; the repaired overflow witness is "
-               "proved rejected. Tie: grammar-based mutations, Unicode digits/letters, over-long digit runs, raw bytes run on the implementation with panics "
+    level_text="Lean theorems (full, ALL strings): the decoders are total functions in the model (no partial definitions); every square the placement loop hands to NewPosition is "
+               "< 64 and strictly decreasing (placements_in_range: no index out of range, no duplicate); every accepted FEN yields a position whose views all agree, rights < 16, "
+               "target < 64, clocks in int64 (decoded_wellformed) and re-encodes to a canonical FEN that decodes to the SAME value (accepted_roundtrip, accepted_normalised); the "
+               "repaired overflow witness is proved rejected. Tie: grammar-based mutations, Unicode digits/letters, over-long digit runs, raw bytes run on the implementation with panics "
                "mapped to an outcome class and compared with the model; accepted FENs must re-encode to a FEN decoding to the same position with consistent views.",
     level_note="Trusted: Lean kernel; Model.Fen tied by the fenstrings stream (outcome class + re-encoded FEN exact); Go string->rune conversion. "
                "Engine.Move / TakeBack / Reset are driven through the real engine.Engine with rejected text interleaved (engine stream): accepted iff the text denotes a legal move of the reference, rejected input leaves every getter unchanged.",
@@ -208,31 +210,35 @@ PROPS["C03"] = dict(
 )
 
 PROPS["C11"] = dict(
-    modules=["Morlock.Props.C13Window", "Morlock.Props.C09"],
+    modules=["Morlock.Props.C11", "Morlock.Props.C13"],
     streams=["c11", "c11deep"],
     timeout=dict(quick=900, thorough=6000),
-    level_text="Tie: sequences of searches sharing one table (iterative deepening 1..d, a repeated search, successive positions of a game), table sizes 32 B - 1 MB, with and "
-               "without the min-depth write filter, on histories in which no repetition / fifty-move draw can arise inside the tree: impl vs model exact (the model threads the same "
-               "table: slot = hash mod n, full-hash check, replacement value), impl vs exhaustive reference negamax (root score equal to the table-less value, first PV move optimal). "
-               "Lean: lemmas only so far (C13Window, C09); Sound(tt) invariant proof planned.",
-    level_note="Trusted: Lean kernel; Model.TT/Model.Search tied exactly; hash collisions on the 64-bit key are outside the property ('barring collisions').",
-    technique="differential search sequences with shared transposition table against table-free exhaustive negamax",
-    rule="no-repeat histories x iterative deepening + repeat + 2 successive game positions x 5 table sizes x 2 seeds; non-trivial = distinct script",
-    partial=["Sound(tt) preservation theorem not yet proved: exploration only"],
+    level_text="Lean theorems (full; every Game, exploration, leaf evaluation, table size and min-depth filter; hypotheses of the property explicit: HashOK = positions with equal hash "
+               "have equal values ('barring collisions'), RootFree/NoDraw = no history draw inside the tree): a sound table (every exact entry is the true value of that position at "
+               "that depth) stays sound through every search, for every window (sound_preserved, stored_exact); at the full window the result equals the table-free negamax value "
+               "(transparent) and the PV is principal and non-empty at the root (pv_first_best); by list induction any SEQUENCE of searches over varying roots and depths sharing "
+               "the table returns the true value each time (sequence). Tie: iterative deepening + repeated + successive-position searches with tables 32 B - 1 MB, impl vs model "
+               "exact (the model threads the same table), impl vs exhaustive reference; deep sequences against a harness-side exhaustive negamax.",
+    level_note="Trusted: Lean kernel; Model.TT/Model.Search tied exactly; hash collisions on the 64-bit key are outside the property and are the hypothesis HashOK.",
+    technique="Lean 4 proof (table invariant threaded through the alpha-beta node contract; list induction over search sequences) + differential search sequences",
+    rule="no-repeat histories x iterative deepening + repeat + 2 successive game positions x 5 table sizes x 2 seeds; deep tt-sequence oracle (d=4-6, two PV moves, shallower searches); non-trivial = distinct script",
+    partial=[],
     modelled=SEARCH_MODELLED,
 )
 
 PROPS["C12"] = dict(
-    modules=["Morlock.Props.C13Window", "Morlock.Props.C09"],
+    modules=["Morlock.Props.C12", "Morlock.Props.C11"],
     streams=["c12"],
     timeout=dict(quick=900, thorough=6000),
-    level_text="Tie: cancellation forced at the k-th poll of the search context (a context whose Done() is the poll: no hook needed) for k = 1,2,3, last-1, last, last+1 and random k "
-               "(thorough: every k), with tables of 0 - 1 MB: the search must report ErrHalted, hand the board back (all getters equal), and a following search with the same table must "
-               "return exactly what the reference says; impl vs model exact (the model polls at the same places). Lean: lemmas only so far.",
-    level_note="Trusted: Lean kernel; Model.Search poll placement tied by exact agreement on halted/not-halted for every k tried.",
-    technique="fault enumeration over cancellation polls + differential against model and reference",
-    rule="positions x depth 1-3 x cancel point k over the polls of the undisturbed search; sequence halt -> search (optionally search -> halt -> search); non-trivial = distinct script",
-    partial=["leaves_nothing theorem (Sound(tt) kept for every poll index) not yet proved: exploration only"],
+    level_text="Lean theorems (full, for EVERY cancellation poll index k): the search reports halted exactly when its last poll saw the cancellation (reports_halted, "
+               "reports_halted_at, halted_before_start), cancellation is monotone (cancelled_stays), a halted search leaves the table sound whatever k was (leaves_nothing: every "
+               "store is guarded by a poll that said 'not cancelled'), and the next search with the same table returns the true value - the same score as if the halted search had "
+               "never run (next_search_exact). Board hand-back: C08.pushes_pops. Tie: cancellation forced at the k-th poll of the search context (a context whose Done() is the poll: "
+               "no hook), k = 1,2,3, last-1, last, last+1, random (thorough: every k), incl. roots where a draw can be claimed; impl vs model exact, following search vs reference.",
+    level_note="Trusted: Lean kernel; Model.Search poll placement tied by exact agreement on halted/not-halted for every k tried. PV equality of the follow-up search is not claimed (table hits may cut the PV at different places); its score is.",
+    technique="Lean 4 proof (liveness flag in the node contract; stores guarded by polls) + fault enumeration over cancellation polls",
+    rule="positions x depth 1-3 x cancel point k over the polls of the undisturbed search; sequence halt -> search (optionally search -> halt -> search); drawn roots; non-trivial = distinct script",
+    partial=[],
     modelled=SEARCH_MODELLED,
 )
 
@@ -286,4 +292,72 @@ PROPS["C16"] = dict(
     rule="10 scenario families (supersede, infinite+stop, isready during search, shutdown during search, stale movetime timer, time limits, malformed lines, go during search, abandon search, bundled engines) x random parameters; non-trivial = distinct script",
     partial=["all-schedules theorems pending; real scheduler not enumerated"],
     modelled=UCI_MODELLED,
+)
+
+PROPS["C15"] = dict(
+    modules=["Morlock.Props.C15Limits", "Morlock.Props.C03"],
+    streams=["c15"],
+    level_text="Lean theorem: for every clock 0 <= remaining < 2^62 ns and every moves-to-go < 2^31, TimeControl.Limits gives 0 <= soft <= hard <= remaining (int64 wrap-around and "
+               "truncating division explicit). C03.search_exact gives what each iteration returns. Tie: (a) Limits on a dense grid + random 62-bit values, impl vs model exact; "
+               "(b) Engine.Analyze with depth limits on generated positions: every PV seen is compared with a direct fixed-depth AlphaBeta.Search at that depth (score and PV), depths "
+               "strictly increasing, the last depth equals the model's prediction (limit, or first depth with a forced mate within the depth), Halt afterwards returns that last "
+               "iteration, the engine's own game untouched; (c) a halt requested while depth 1 is still running (search parked inside a gated evaluator) returns only after depth 1 and "
+               "returns a completed iteration at least as deep as any reported before. The small-step model of handle.process/Halt with all-schedule theorems is in progress.",
+    level_note="Trusted: Lean kernel; Model.TimeCtl tied exactly; real timers/goroutine scheduling exercised through the gate only (partial by nature).",
+    technique="Lean 4 proof of the time-limit arithmetic + differential iterative deepening vs fixed-depth searches + gated halts",
+    rule="limits: 16x11x2x2 grid + 2000 random (w,b,moves); iter: 40 lines x depth limit 1-5; iterhalt: 20 positions x gate 1-40; non-trivial = distinct parameters / script",
+    partial=["reports_in_order / halt_monotone for all schedules: small-step model proof in progress; until then exploration through scripted halts"],
+    modelled=["search/searchctl/timectrl.go: TimeControl.Limits -> Model.TimeCtl; iterative.go process loop (sequential reading) -> Driver.Misc.iterOp over Model.Search"],
+)
+
+PROPS["C17"] = dict(
+    modules=["Morlock.Props.C11", "Morlock.Props.C13Window"],
+    streams=["c17"],
+    extra_race=True,
+    level_text="Tie: (a) sequential Read/Write/Used sequences on tables of 1-2048 entries with colliding hashes, the min-depth filter and uint16 wrap-around of the replacement value, "
+               "impl vs the Lean table model exact (the same model whose soundness under search is proved in C11); (b) concurrent stress: writers store self-describing tuples "
+               "(every field a function of one integer that the score names) while readers check that each lookup returns exactly one tuple that one store for that same hash made; "
+               "at quiescence Used()*entries equals the number of occupied slots and no slot holds an entry of smaller replacement value than a store that reported success; "
+               "(c) the same stress under the Go race detector. The small-step model with no_mixture / replace_le / used_exact for all schedules is in progress.",
+    level_note="Trusted: the Go memory model is only observed through the race detector on the runs made (partial by nature); Model.TT tied exactly on sequential histories.",
+    technique="differential sequential table ops + concurrent stress with self-describing payloads + race detector; Lean table model",
+    rule="300 sequential scripts (10-50 ops, 2-13 hashes, 5 sizes); 6 stress runs (2-6 writers, 1-4 readers, 2-200 hashes, 30000 stores each) + race-detector run; non-trivial = distinct script",
+    partial=["all-schedules theorems pending; 'no data race' is established by the race detector on the runs made only"],
+    modelled=["search/transposition.go: NewTranspositionTable, Read, Write, val, Used, WriteLimited -> Model.TT"],
+)
+
+PROPS["C18"] = dict(
+    modules=["Morlock.Props.C07", "Morlock.Props.C08", "Morlock.Props.C03"],
+    streams=["c18"],
+    timeout=dict(quick=900, thorough=6000),
+    level_text="Lean: the result of a search is a function of the Game it is given (Model.alphabeta is a pure function; C03.exact: it equals negamax, which does not mention the hash "
+               "table seed); the hash only enters through repetition pre-filtering, which C07.move_eq_hash + C08 show to be path independent for every table; analysis runs on a fork, "
+               "and C08.fork_isolated shows operations on a fork never change what the original reports. Tie: each search (plain, turochamp, sargon, bernstein wiring) repeated, with "
+               "Zobrist seeds 0/1/987654321, after other searches and alongside searches on other engines: identical (nodes, score, PV); analysis parked inside an evaluation "
+               "while the engine's game moves on, then released: the engine's game equals that of a fresh engine given the same moves, and a follow-up analysis (also after Reset with "
+               "a hash table) equals the fresh engine's; with noise on, two engines with the same seed give identical answers.",
+    level_note="Trusted: Lean kernel; data races between an unwinding halted search and its successor are only observed by the race detector (thorough tier); float summation order inside "
+               "turochamp is checked by repetition, not proved.",
+    technique="Lean 4 corollaries (purity, C03/C07/C08) + differential repetition / seeds / concurrency / gated isolation scenarios",
+    rule="16 det scripts x 4 engine kinds (10 searches each) + 12 isolation scenarios (gate 30-330, hash 0/1) + 6 noise scripts; non-trivial = distinct script",
+    partial=["sargon/turochamp/bernstein evaluators are not transcribed: their determinism is decided by repetition across seeds and engines"],
+    modelled=["engine/engine.go Analyze (fork), board.Fork, search (pure model)"],
+)
+
+PROPS["C20"] = dict(
+    modules=["Morlock.Props.C06", "Morlock.Props.C01"],
+    streams=["c20"],
+    level_text="Tie (decides the property; exploration level): on generated legal positions with short histories and on curated squeezed positions (bare kings boxed in, stalemate-like), "
+               "for the generic material, TUROCHAMP (Eval, Material) and BERNSTEIN (factor 1, 8, 20) evaluations: the value is finite and equals the value of the colour-mirrored "
+               "game (board flipped, colours swapped, history mirrored) exactly; SARGON points finite; BERNSTEIN FindPlausibleMoves and the limit 1/3/7 move table select only legal "
+               "non-under-promotion moves, each once, within the limit, at least one whenever a legal move exists, never an illegal pseudo-legal move; SARGON SkipUnderPromotions "
+               "selects a non-empty set without under-promotions; TUROCHAMP considerable-move predicate is evaluated on every legal move after it was made; both opening books are "
+               "walked breadth-first and every reply is checked legal in the position it is keyed on. Lean: the attack/move-generation facts the evaluators rest on (C06, C01 lemmas); "
+               "the historical evaluators themselves are not transcribed.",
+    level_note="No Lean model of the three historical evaluators exists (floating-point heuristics, ~1500 lines): this check is differential/exploratory against independent oracles "
+               "(mirror symmetry, legality recomputed from the rules). Claimed at proof level only for the underlying attack relation.",
+    technique="property-based differential testing with mirror symmetry and legality oracles; exhaustive walk of the opening books",
+    rule="150 (quick) / 6000 (thorough) positions with histories + curated squeezed positions; non-trivial = distinct script; position features counted",
+    partial=["historical evaluators and filters are not modelled in Lean: exploration only"],
+    modelled=[],
 )
